@@ -233,12 +233,19 @@ def weave_free_variables(w, sc):
     w.contract(sc["free_variables.contract"])
     w.body_first(sc["free_variables.first"])
     hole_arm_live(w, r"^        Variant::Unifier\(subterm, subterm_shift\) => \{$", sc["free_variables.hole"], ["free_variables", "unsigned_shift"])
-    w.before(r"^\s*for \(_, annotation, definition\) in definitions \{$", sc["free_variables.let.pre"])
+    # hints are placed by structure (start / end of the loop body, end of the arm), not on statement text
+    i_let = w.find(r"^        Variant::Let\(definitions, body\) => \{$")
+    j_let = w.block_end(i_let)
+    i_for = w.find(r"^\s*for .* in definitions \{$", 1, i_let)
+    j_for = w.block_end(i_for)
+    if not (i_let < i_for < j_for < j_let):
+        raise LostAnchor(f"{w._where(i_let)}: Let arm of free_variables not in the expected shape")
+    w.lines[j_let:j_let] = sc["free_variables.let.post"].rstrip("\n").split("\n")
+    w.lines[j_for:j_for] = sc["free_variables.let.body.end"].rstrip("\n").split("\n")
+    w.lines[i_for + 1 : i_for + 1] = sc["free_variables.let.body"].rstrip("\n").split("\n")
+    w.lines[i_for:i_for] = sc["free_variables.let.pre"].rstrip("\n").split("\n")
+    w.log["annotations"].append({"fn": w.name, "kind": "proof-blocks", "anchor": "Let arm: before loop, loop body start/end, end of arm"})
     w.for_invariant(1, "it", sc["free_variables.let.loop"])
-    i = w.find(r"^\s*free_variables\(annotation, cutoff \+ definitions\.len\(\), variables\);$")
-    w.lines[i:i] = sc["free_variables.let.body"].rstrip("\n").split("\n")
-    w.after(r"^\s*free_variables\(definition, cutoff \+ definitions\.len\(\), variables\);$", sc["free_variables.let.body.end"])
-    w.after(r"^\s*free_variables\(body, cutoff \+ definitions\.len\(\), variables\);$", sc["free_variables.let.post"])
 
 
 def closure_contract(w, regex, head):
@@ -372,11 +379,17 @@ def weave_step(w, sc, strict=False):
     w.body_first(sc["step_strict.first" if strict else "step.first"])
     # the hole arm: R10 (`.map(closure)` on the hole read as a match), then R9/R11
     i = w.find(r"^        Unifier\(subterm, subterm_shift\) => \{$")
-    k = w.find(r"^\s*\{ subterm\.borrow\(\)\.clone\(\) \}\.map\(\|subterm\| (.*)\)$", 1, i)
-    m = re.match(r"^(\s*)(\{ subterm\.borrow\(\)\.clone\(\) \})\.map\(\|subterm\| (.*)\)$", w.lines[k])
+    # rustfmt may break the chain after the block: join the two lines first (layout only)
+    for k0 in range(i, w.block_end(i)):
+        if re.match(r"^\s*\{ subterm\.borrow\(\)\.clone\(\) \}$", w.lines[k0]) and re.match(r"^\s*\.(map|and_then)\(\|subterm\| .*\)$", w.lines[k0 + 1]):
+            w.lines[k0 : k0 + 2] = [w.lines[k0] + w.lines[k0 + 1].strip()]
+            break
+    k = w.find(r"^\s*\{ subterm\.borrow\(\)\.clone\(\) \}\.(map|and_then)\(\|subterm\| (.*)\)$", 1, i)
+    m = re.match(r"^(\s*)(\{ subterm\.borrow\(\)\.clone\(\) \})\.(map|and_then)\(\|subterm\| (.*)\)$", w.lines[k])
     ind = m.group(1)
-    w.rewrite_lines("R10-option-map", k, k, [ind + "match " + m.group(2) + " {", ind + "    None => None,", ind + "    Some(subterm) => {", ind + "        Some(" + m.group(3) + ")", ind + "    }", ind + "}"], note="Option::map with a closure as the equivalent match")
-    hole_arm_live(w, r"^        Unifier\(subterm, subterm_shift\) => \{$", sc["step.hole"], ["unsigned_shift"])
+    inner = "Some(" + m.group(4) + ")" if m.group(3) == "map" else m.group(4)
+    w.rewrite_lines("R10-option-map", k, k, [ind + "match " + m.group(2) + " {", ind + "    None => None,", ind + "    Some(subterm) => {", ind + "        " + inner, ind + "    }", ind + "}"], note="Option::map / and_then with a closure as the equivalent match")
+    hole_arm_live(w, r"^        Unifier\(subterm, subterm_shift\) => \{$", sc["step.hole"], ["unsigned_shift", "step"])
     # R3: operator sugar on &BigInt
     rewrite_bigint_ops(w)
     if w.count(r"\.map\(\|quotient\| Term \{$"):
@@ -539,7 +552,7 @@ def build_core(repo, external=(), canary=None, with_witness=True, boost=False):
     weave_evaluate(ev, sc)
     for f in (ss, us, op, fv, iv, st, st2, ev):
         b.add_fn(f, external=f.name in external)
-    for f in (ss, us, op, fv):
+    for f in (ss, us, op, fv, st):
         b.add(rec_stub(f))
 
     if with_witness:
